@@ -128,6 +128,26 @@ CHECKS["C04"] = {
 }
 
 
+CHECKS["C16"] = {
+    "level": "model_checking",
+    "technique": "exhaustive enumeration of cut positions around the CONNECT / response head and of all legal interleavings, with a tunnel reference monitor, on the real code",
+    "level_text": "CONNECT (and GET+Upgrade) exchanges x status {200,204,101,407,403,500} x payload {none, 2 HTTP requests, TLS-like bytes} x optional body, each stream uncut or cut at "
+                  "every position in a +-3 byte window around the end of the CONNECT head / response head, every legal interleaving of the resulting chunks, both tx_auto_destroy "
+                  "settings, under the documented hand-over. Oracle: (i) nothing beyond the CONNECT head is consumed before the first response byte; (ii) for 2xx+non-HTTP payload or "
+                  "101 a data call reports TUNNEL and from then on every call of both directions reports TUNNEL and runs no callback; (iii) refused CONNECT or HTTP-in-tunnel: exactly "
+                  "the payload requests become transactions, paired with their responses, every request byte consumed exactly once, no ERROR. The CONNECT/101/407 tokens are also in "
+                  "the statemc alphabets (monitors only).",
+    "level_note": "'After which' is read literally: bytes offered before tunnel mode is entered are not judged by (ii). Refused CONNECT followed by non-HTTP bytes is outside the statement.",
+    "design_ref": "DESIGN.md §6 C16",
+    "rule": "scenario product x cut windows x all legal interleavings; distinct = distinct callback traces",
+    "bounds": {"quick": "cut windows +-3, all interleavings (<=6 per chunking), plain + ASan", "thorough": "same product (the space is small and fully enumerated in both tiers) + statemc macro depth 6 with the CONNECT tokens"},
+    "mc_explanation": "states = distinct callback traces, transitions = data calls on the real parser",
+    "assumptions": ["IDS personality", "QUICK_START hand-over as implemented in mc/hx_run.c"],
+    "jobs": lambda tier: [J("cutmc", "plain", ["--mode", "tunnel"]), J("cutmc", "asan", ["--mode", "tunnel"])] +
+                         ([J("statemc", "plain", ["--alphabet", "macro", "--depth", "6", "--cfg", "0"])] if tier == "thorough" else []),
+}
+
+
 def manifest():
     import json, os
     root = os.path.dirname(os.path.dirname(os.path.abspath(__file__)))
@@ -159,7 +179,7 @@ def manifest():
 
 ENGINES = [
     {"name": "statemc", "path": "mc/statemc.c", "serves_properties": ["C01", "C05", "C09", "C10"], "kind_free_text": "E2: explicit-state BFS over token histories of the real parser, exact canonical state hashing"},
-    {"name": "cutmc", "path": "mc/cutmc.c", "serves_properties": ["C02", "C03", "C04", "C06"], "kind_free_text": "E1: stateless deviation-bounded explorer of segmentation / generated grammar on the real code"},
+    {"name": "cutmc", "path": "mc/cutmc.c", "serves_properties": ["C02", "C03", "C04", "C06", "C16"], "kind_free_text": "E1: stateless deviation-bounded explorer of segmentation / generated grammar on the real code"},
 ]
 
 if __name__ == "__main__":
